@@ -12,7 +12,9 @@ META = {
                    "crate = \"sd\" (attributes read from the expanded AST); (Z-buf) Df88591String::serialize hands all its characters to the serializer "
                    "without an intermediate buffer whose byte capacity is below 2*N (Latin-1 letters above U+007F take two UTF-8 bytes), ArrayString "
                    "serialises its whole deref; (Z-vis) the visitors read chars().take(N) / push until full, which with C17's capacity rules returns "
-                   "everything a serialised value contains; (Z-vec) the serde feature turns on tinyvec/serde.",
+                   "everything a serialised value contains; (Z-vec) the serde feature turns on tinyvec/serde; (X-map, X-utf8) the "
+                   "character maps and the ArrayString writer inventory of C17 are imported: serialisation goes through to_char / Deref<str>, so a stored "
+                   "byte outside the maps' range or a non-UTF-8 byte vector would break the round trip (or panic).",
     "assumptions": ["floats are not NaN (the property's own precondition: NaN != NaN)", "self-describing data model (property statement)"],
 }
 
